@@ -8,6 +8,8 @@ from .catalogue import Entry
 def load_poseidon(k):
     import importlib
     ph = importlib.import_module("pysnark.poseidon_hash")
+    from symtrace import env as ENV
+    ENV.track_modules(k.env, [ph])            # first sight = right after import: its containers restart with every run
     if k.env.symbolic and not getattr(ph, "_verif_injected", False):
         from symtrace import engine as E
         E.inject(ph)
@@ -99,6 +101,22 @@ def run_hash(k, L):
     return obs
 
 
+def run_hash_seq(k):
+    """several hashes in one run: each equals the plain sponge of its own message, whatever was hashed before"""
+    ph = load_poseidon(k)
+    P = k.env.P
+    C = registered(k)
+    obs = []
+    msgs = [[k.S("m0")], [k.S("m1"), k.S("m0")], [k.S("m0")]]
+    refs = [[k.v("m0")], [k.v("m1"), k.v("m0")], [k.v("m0")]]
+    for ci, (m, r) in enumerate(zip(msgs, refs)):
+        out = ph.poseidon_hash(m)
+        ref = ref_hash(r, C, P)
+        obs.append(("call %d of the run: hash output 0 equals the plain reference" % (ci + 1), ("cong", out[0].value, ref[0])))
+        obs.append(("call %d of the run: last hash output equals the plain reference" % (ci + 1), ("cong", out[-1].value, ref[-1])))
+    return obs
+
+
 def perm_outputs(k):
     ph = load_poseidon(k)
     C = registered(k)
@@ -180,6 +198,8 @@ def sha_coeff(i, P):
 def run_ggh(k, nbits):
     import importlib
     gh = importlib.import_module("pysnark.ggh_hash")
+    from symtrace import env as ENV
+    ENV.track_modules(k.env, [gh])
     if k.env.symbolic and not getattr(gh, "_verif_injected", False):
         from symtrace import engine as E
         E.inject(gh)
@@ -205,6 +225,7 @@ def build(n=4, tier="quick", backend="zkinterface"):
     ents.append(Entry("perm_out", perm_outputs, tuple("s%d" % i for i in range(t)), tags={"c20", "wires"}))
     for L in ([0, 1, 4, 5] if tier == "quick" else [0, 1, 3, 4, 5, 8, 9]):
         ents.append(Entry("hash_ref_L%d" % L, (lambda k, L=L: run_hash(k, L)), tuple("m%d" % i for i in range(L)), tags={"c20", "obs"}))
+    ents.append(Entry("hash_seq", run_hash_seq, ("m0", "m1"), tags={"c20", "obs", "seq"}))
     ents.append(Entry("hash_out_L5", (lambda k: hash_outputs(k, 5)), tuple("m%d" % i for i in range(5)), tags={"c20", "wires"}))
     ents.append(Entry("vector", run_vector, (), tags={"c20", "obs", "vector"}))
     maxL = 8 if tier == "quick" else 12
